@@ -38,6 +38,9 @@ type Modules struct {
 	// converted nodes. To access the map, use the get/set/ClearEntryCache()
 	// thread-safe functions.
 	entryCache map[Node]*Entry
+	// converting is the set of groupings currently being converted by
+	// ToEntry, used to detect groupings that use themselves.
+	converting map[Node]bool
 	// mergedSubmodule is used to prevent re-parsing a submodule that has already
 	// been merged into a particular entity when circular dependencies are being
 	// ignored. The keys of the map are a string that is formed by concatenating
